@@ -57,14 +57,14 @@ theorem paths_mirror (cfg : Cfg) (fuel : Nat) (p : SProg) (π : Path) (x : Int) 
 /-- **A child's variables sit under the child's name**: calling child slot `k` of a module at `π`
 changes nothing outside `col :: π ++ [name of k] ++ rest`. -/
 theorem child_writes_under_its_name (cfg : Cfg) (fuel : Nat) (π : Path) (x : Int) (l : Local) (s : Store)
-    (slot : Nat) (a : Expr) (k : Kid) (hk : l.kids[slot]? = some k) (q : Path)
+    (slot : Nat) (a : Expr) (w : Option Nat) (k : Kid) (hk : l.kids[slot]? = some k) (q : Path)
     (hq : ¬ inScope (π ++ [k.name]) q) :
-    lookupP q (eval cfg (fuel + 1) (.call slot a) π x l s).2.vars = lookupP q s.vars := by
+    lookupP q (eval cfg (fuel + 1) (.call slot a w) π x l s).2.vars = lookupP q s.vars := by
   simp only [eval, hk]
   split
   · rfl
   · rename_i av _
-    have h1 := paths_mirror cfg fuel k.body (π ++ [k.name]) av {} s q hq
+    have h1 := paths_mirror cfg fuel (bindArg w k.body) (π ++ [k.name]) av {} s q hq
     split
     · rename_i heq; rw [heq] at h1; exact h1
     · rename_i lk s1 heq
@@ -192,17 +192,17 @@ theorem immutable_never_initialises (cfg : Cfg) (fuel : Nat) (p : SProg) (m : LF
 /-- **Program level**: a `param` statement for a parameter that is absent, under immutable
 `'params'`, makes the body raise exactly the missing-parameter error, with the store untouched. -/
 theorem missing_or_misshaped_raises (cfg : Cfg) (fuel : Nat) (π : Path) (x : Int) (l : Local) (s : Store)
-    (n : String) (shape : List Nat) (init : Int)
+    (n : String) (shape : List Dim) (init : Int)
     (hfree : nameReserved l.res n (some "params") = false) :
     (inFilter s.mutable "params" = false → getVar s π "params" n = none →
       eval cfg (fuel + 1) (.param n shape init) π x l s = (.error (missingParamErr s), s)) ∧
-    (∀ sh d, getVar s π "params" n = some (.tensor sh d) → sh ≠ shape →
+    (∀ sh d, getVar s π "params" n = some (.tensor sh d) → sh ≠ resolveDims shape →
       eval cfg (fuel + 1) (.param n shape init) π x l s = (.error .paramShape, s)) := by
   constructor
   · intro himm habs
-    simp only [eval, missing_param_raises π n shape init l.res s himm habs hfree]
+    simp only [eval, missing_param_raises π n (resolveDims shape) init l.res s himm habs hfree]
   · intro sh d hv hsh
-    simp only [eval, misshaped_param_raises π n shape sh d init l.res s hv hsh hfree]
+    simp only [eval, misshaped_param_raises π n (resolveDims shape) sh d init l.res s hv hsh hfree]
 
 /-! ## clause: a name clash raises instead of silently sharing or overwriting state -/
 
@@ -274,10 +274,10 @@ private theorem declares_reserves (cfg : Cfg) (fuel : Nat) (A : SProg) (n : Stri
     | bind e => exact absurd hA (by simp [declares])
     | ret e => exact absurd hA (by simp [declares])
     | get c nm => exact absurd hA (by simp [declares])
-    | put c nm e => exact absurd hA (by simp [declares])
+    | put c rl nm e => exact absurd hA (by simp [declares])
     | sow c nm e => exact absurd hA (by simp [declares])
     | perturb c nm e => exact absurd hA (by simp [declares])
-    | call slot a => exact absurd hA (by simp [declares])
+    | call slot a w => exact absurd hA (by simp [declares])
 
 private theorem declares_blocked (cfg : Cfg) (fuel : Nat) (B : SProg) (n : String) (co' : Option String)
     (hB : declares B n co') (π : Path) (x : Int) (l l1 : Local) (s s1 : Store)
@@ -307,10 +307,10 @@ private theorem declares_blocked (cfg : Cfg) (fuel : Nat) (B : SProg) (n : Strin
     | bind e => exact absurd hB (by simp [declares])
     | ret e => exact absurd hB (by simp [declares])
     | get c nm => exact absurd hB (by simp [declares])
-    | put c nm e => exact absurd hB (by simp [declares])
+    | put c rl nm e => exact absurd hB (by simp [declares])
     | sow c nm e => exact absurd hB (by simp [declares])
     | perturb c nm e => exact absurd hB (by simp [declares])
-    | call slot a => exact absurd hB (by simp [declares])
+    | call slot a w => exact absurd hB (by simp [declares])
 
 /-- **Name clashes raise.**  In one module body, after a declaration `A` of name `n` (a submodule, a
 variable or a parameter) and any statements `Q` in between, a second declaration `B` of the same
@@ -465,12 +465,12 @@ theorem lazy_init_shapes_partial (cfg : Cfg) (fuel : Nat) (p : SProg) (m : LFilt
 
 /-- a nested program: auto-named and explicitly named children, a child called twice -/
 def demo : SProg :=
-  .seq (.param "w" [2] 3) <|
-  .seq (.child "A" none (.seq (.param "k" [3] 1) (.seq (.var "stats" "m" [2] (.const 2)) (.ret (.add (.loc 0) (.mul .arg (.loc 1))))))) <|
-  .seq (.child "A" none (.seq (.child "B" (some "inner") (.seq (.param "b" [] 4) (.ret (.loc 0)))) (.seq (.call 0 .arg) (.ret (.loc 0))))) <|
-  .seq (.call 0 (.loc 0)) <|
-  .seq (.call 0 (.loc 1)) <|
-  .seq (.call 1 (.loc 2)) <|
+  .seq (.param "w" [.lit 2] 3) <|
+  .seq (.child "A" none (.seq (.param "k" [.lit 3] 1) (.seq (.var "stats" "m" [2] (.const 2)) (.ret (.add (.loc 0) (.mul .arg (.loc 1))))))) <|
+  .seq (.child "A" none (.seq (.child "B" (some "inner") (.seq (.param "b" [] 4) (.ret (.loc 0)))) (.seq (.call 0 .arg none) (.ret (.loc 0))))) <|
+  .seq (.call 0 (.loc 0) none) <|
+  .seq (.call 0 (.loc 1) none) <|
+  .seq (.call 1 (.loc 2) none) <|
   .ret (.add (.loc 2) (.loc 3))
 
 def demoV : Vars :=
@@ -485,14 +485,29 @@ example : (ModuleTree.init {} 50 demo initDefault ["params"] 1).result = .ok (11
 /-- `init_apply_agree` instance: apply with `mutable=False`, no RNGs -/
 example : (ModuleTree.apply {} 50 demo .ff demoV [] 1).result = .ok (115, ⟨[], []⟩) := by decide +kernel
 
+/-- a per-feature scale whose parameter shape follows the argument's last axis, used on two widths -/
+def scaleTwice (w1 w2 : Nat) : SProg :=
+  .seq (.child "Scale" none (.seq (.param "scale" [.argLast] 1) (.ret (.mul .arg (.loc 0))))) <|
+  .seq (.call 0 .arg (some w1)) <| .seq (.call 0 .arg (some w2)) <| .ret (.add (.loc 0) (.loc 1))
+
+/-- same width twice: plain sharing; init and apply agree -/
+example : (ModuleTree.init {} 20 (scaleTwice 4 4) .tt ["params"] 2).result
+    = .ok (16, ⟨["params"], [(["params", "Scale_0", "scale"], .tensor [4] [1, 1, 1, 1])]⟩) := by decide +kernel
+
+/-- **A wrongly-shaped parameter raises during `init` too**: the second use asks for shape `(1,)` of a
+parameter created with shape `(4,)` a moment ago (instance of `misshaped_param_raises`, which holds
+whatever the filter and flags) -/
+theorem init_rejects_second_shape :
+    (ModuleTree.init {} 20 (scaleTwice 4 1) .tt ["params"] 2).result = .error .paramShape := by decide +kernel
+
 /-- a stateful program (counter, sow, child called twice) for `apply_keeps_tree` -/
 def statefulDemo : SProg :=
   .seq (.child "A" none
     (.seq (.var "stats" "cnt" [] (.const 0)) <|
-     .seq (.put "stats" "cnt" (.add (.loc 0) (.const 1))) <|
+     .seq (.put "stats" [] "cnt" (.add (.loc 0) (.const 1))) <|
      .seq (.sow "inter" "h" .arg) <|
      .ret (.add .arg (.loc 0)))) <|
-  .seq (.call 0 .arg) <| .seq (.call 0 (.loc 0)) <| .ret (.loc 1)
+  .seq (.call 0 .arg none) <| .seq (.call 0 (.loc 0) none) <| .ret (.loc 1)
 
 def statefulV : Vars :=
   { cols := ["stats", "inter"],
@@ -526,9 +541,9 @@ example : scopeParam ["A_0"] "k" [4] 1 [] (Scope.bind .tt demoV ["params"])
 
 /-- `submodule_compositional` instance: child `A_0` applied on its own subtree returns what it
 returns inside the parent (second call, argument 13 → 1·3 + 13·4 = 55) -/
-example : ((eval {} 20 (.seq (.param "k" [3] 1) (.seq (.var "stats" "m" [2] (.const 2)) (.ret (.add (.loc 0) (.mul .arg (.loc 1))))))
+example : ((eval {} 20 (.seq (.param "k" [.lit 3] 1) (.seq (.var "stats" "m" [2] (.const 2)) (.ret (.add (.loc 0) (.mul .arg (.loc 1))))))
       [] 13 {} (Scope.bind .ff (Flax.PathSim.restrict ["A_0"] demoV) [])).1.toOption.map (·.out)) = some 55 ∧
-    ((eval {} 20 (.seq (.param "k" [3] 1) (.seq (.var "stats" "m" [2] (.const 2)) (.ret (.add (.loc 0) (.mul .arg (.loc 1))))))
+    ((eval {} 20 (.seq (.param "k" [.lit 3] 1) (.seq (.var "stats" "m" [2] (.const 2)) (.ret (.add (.loc 0) (.mul .arg (.loc 1))))))
       ["A_0"] 13 {} (Scope.bind .ff demoV [])).1.toOption.map (·.out)) = some 55 := by decide +kernel
 
 end Flax.C02
